@@ -27,7 +27,7 @@ def run(ctx, replay):
         files = [(os.path.join(replay, f), "go" if f.endswith(".go.y") else "ts", f) for f in os.listdir(replay) if f.endswith(".y")]
     else:
         r = ctx.vh(["render", "-out", out, "-seed", ctx.seed, "-corpus", conf.CORPUS, "-nrand", ctx.pick(10, 80), "-nexpr", ctx.pick(4, 30),
-                    "-nfeat", ctx.pick(6, 50), "-ndp", ctx.pick(2, 20), "-nring", ctx.pick(8, 60), "-valued", 50])
+                    "-nfeat", ctx.pick(6, 50), "-ndp", ctx.pick(6, 40), "-nctx", ctx.pick(160, 800), "-nring", ctx.pick(8, 60), "-valued", 50])
         recs = json.load(open(os.path.join(out, "render.json")))
         files = [(os.path.join(out, rc["file"]), rc["lang"], rc["file"]) for rc in recs]
     cli = ctx.cli()
@@ -37,6 +37,28 @@ def run(ctx, replay):
     for path, lang, name in files:
         for opts in OPTS[lang]:
             jobs.append((path, lang, name, opts))
+
+    # in-process generations: per file ONE process runs through all option sets in a mixed order
+    # (plain, -o, -u, plain, -o -u, -o, ...) so that state kept between generations shows
+    inproc = {}
+
+    def one_inproc(f):
+        path, lang, name = f
+        wd = ctx.sub("g2-%s" % name)
+        seq = "plain,o,u,plain,ou,o,u,ou" if lang == "go" else "plain,plain,plain"
+        p = subprocess.run([vh, "gen2", "-file", path, "-lang", "go" if lang == "go" else "typescript", "-seq", seq, "-dir", wd],
+                           stdout=subprocess.PIPE, stderr=subprocess.STDOUT, text=True, env=GOENV)
+        res = {}
+        for ln in p.stdout.splitlines():
+            parts = ln.split(" ", 1)
+            if len(parts) == 2:
+                res.setdefault(parts[0], []).append(parts[1])
+        shutil.rmtree(wd, ignore_errors=True)
+        return name, res
+    with concurrent.futures.ThreadPoolExecutor(max_workers=16) as ex:
+        for name, res in ex.map(one_inproc, files):
+            inproc[name] = res
+    OPTKEY = {"": "plain", "-u": "u", "-o": "o", "-o -u": "ou"}
 
     def one(job):
         path, lang, name, opts = job
@@ -48,15 +70,9 @@ def run(ctx, replay):
                                stdout=subprocess.PIPE, stderr=subprocess.STDOUT)
             exits.append(p.returncode)
             hashes.append(hashlib.sha256(open(outp, "rb").read()).hexdigest()[:16] if os.path.exists(outp) else "missing")
-        a = ["gen2", "-file", path, "-lang", "go" if lang == "go" else "typescript", "-n", "3", "-dir", wd]
-        if "-u" in opts:
-            a.append("-u")
-        if "-o" in opts:
-            a.append("-o")
-        p = subprocess.run([vh] + a, stdout=subprocess.PIPE, stderr=subprocess.STDOUT, text=True, env=GOENV)
-        inproc = [x for x in p.stdout.split() if x]
+        ip = inproc.get(name, {}).get(OPTKEY[" ".join(opts)], [])
         shutil.rmtree(wd, ignore_errors=True)
-        return {"file": name, "lang": lang, "opts": " ".join(opts), "hashes": hashes + inproc, "exits": exits, "nproc": nrep, "ninproc": len(inproc)}
+        return {"file": name, "lang": lang, "opts": " ".join(opts), "hashes": hashes + ip, "exits": exits, "nproc": nrep, "ninproc": len(ip)}
     with concurrent.futures.ThreadPoolExecutor(max_workers=16) as ex:
         obs = list(ex.map(one, jobs))
     d2 = ctx.sub("tlc-det")
@@ -82,7 +98,7 @@ def run(ctx, replay):
     ctx.cov["traces_validated_against_impl"] += len(obs)
     ctx.cov["distinct_nontrivial"] = len(obs)
     ctx.cov["samples"] += obs[:3]
-    ctx.cov["rule"] = ("group = (grammar file, option set); %d CLI runs in separate processes + 3 generations inside one process per "
+    ctx.cov["rule"] = ("group = (grammar file, option set); %d CLI runs in separate processes + in-process generations (one process per file running through all option sets in a mixed order) per "
                        "group; grammars have several automatically numbered tokens, several goto targets per state and rows with "
                        "equally frequent entries; non-trivial = groups" % nrep)
     if not replay and len(obs) < ctx.pick(80, 600):
